@@ -491,6 +491,17 @@ def instance(rng, depth=0, with_path=None, nprops=None, emb_depth=3):
         with_path = rng.random() < 0.6
     if with_path:
         path = instancename(rng, depth + 1)
+        if props and len(path.keybindings) and rng.random() < 0.25:
+            # a key that has the name of a property but another value (the
+            # path says where the instance is, the properties what it holds)
+            old = rng.choice(list(path.keybindings.keys()))
+            v = path.keybindings[old]
+            del path.keybindings[old]
+            pn = rng.choice(props).name
+            if pn.lower() not in [k.lower() for k in path.keybindings.keys()]:
+                path.keybindings[pn] = v
+            else:
+                path.keybindings[old] = v
     inst = CIMInstance(cn, properties=props, qualifiers=quals)
     # set afterwards: the constructor would rewrite same-named keybindings
     inst.path = path
